@@ -324,4 +324,7 @@ def check(ctx, env):
     # the first attribute of the requested type, whatever follows it (same rule as C04 R4.7)
     from . import codec_rules as K
     K.r4_7_input_text(ctx, prog, rule="R9.4")
+    # the agent's own FINGERPRINT check uses that text (get_input_text::<Fingerprint>), not "the message minus its last 8
+    # bytes": attributes appended after FINGERPRINT must not make a valid message fail (same rule as C10 R10.2)
+    K.r10_2_fail_closed(ctx, prog, rule="R9.5")
     ctx.extra["exhaustive"] = True
